@@ -374,3 +374,56 @@ class RegexReplacePlaceholders(Contract):
 
     def frame_ok(self, I, inp, obj, name):
         return False
+
+
+@register
+class AddWildcardsToKeyword(Contract):
+    """_add_wildcards_to_value (a keyword mapped to a field becomes a 'contains' match): a multi-character wildcard is put in front unless
+    the value's FIRST PART is that wildcard, and behind unless its LAST PART is - decided on the parts of the value, so that an escaped
+    literal asterisk at a border does not count as a wildcard"""
+    id = "C12.FieldMappingTransformationBase._add_wildcards_to_value"
+    target = f"{BASE}:FieldMappingTransformationBase._add_wildcards_to_value"
+    props = ("C12",)
+    assumed = ["the value is abstract: startswith / endswith of the multi-character wildcard are symbolic facts about its parts (C05.SigmaString.startswith / endswith); + builds a new value"]
+
+    def args(self, I):
+        idx = I.E.index
+        facts = {"starts": I.fresh("first_part_is_wildcard", "bool"), "ends": I.fresh("last_part_is_wildcard", "bool"), "empty": I.fresh("empty", "bool")}
+        I.ctx.assume(z3.Implies(facts["empty"].t, z3.And(z3.Not(facts["starts"].t), z3.Not(facts["ends"].t))))
+
+        def mk(front, back):
+            o = SObj(idx.lookup("sigma.types:SigmaString"), {}, lazy=True)
+            o.ghost.update(front=front, back=back)
+
+            def chk(I2, a, which):
+                arg = I2.force(a[0])
+                if not (isinstance(arg, EnumVal) and arg.name == "WILDCARD_MULTI"):
+                    raise OutsideSubset("startswith / endswith asked about something else than the wildcard part")
+                if which == "starts":
+                    return True if front else facts["starts"]
+                return True if back else (Sym(z3.Or(facts["ends"].t, facts["empty"].t), "bool") if front else facts["ends"])
+
+            def add(I2, a, k, side):
+                arg = I2.force(a[0])
+                if not (isinstance(arg, EnumVal) and arg.name == "WILDCARD_MULTI"):
+                    raise OutsideSubset("something else than the wildcard part is added")
+                return mk(front or side == "front", back or side == "back")
+            o.fields["startswith"] = NativeFn("startswith", lambda I2, a, k: chk(I2, a, "starts"))
+            o.fields["endswith"] = NativeFn("endswith", lambda I2, a, k: chk(I2, a, "ends"))
+            o.fields["__add__"] = NativeFn("__add__", lambda I2, a, k: add(I2, a, k, "back"))
+            o.fields["__radd__"] = NativeFn("__radd__", lambda I2, a, k: add(I2, a, k, "front"))
+            return o
+        val = mk(False, False)
+        me = SObj(idx.lookup(f"{BASE}:FieldMappingTransformationBase"), {}, lazy=True)
+        return {"self": me, "args": [val], "facts": facts}
+
+    def post(self, I, inp, r):
+        f = inp["facts"]
+        ok = isinstance(r, SObj) and "front" in r.ghost
+        I.ctx.require(ok, "the value (possibly extended) is returned")
+        if ok:
+            I.ctx.require(z3.BoolVal(bool(r.ghost["front"])) == z3.Not(f["starts"].t), "a wildcard is put in front iff the first part is not the wildcard")
+            I.ctx.require(z3.BoolVal(bool(r.ghost["back"])) == z3.And(z3.Not(f["ends"].t), z3.Not(f["empty"].t)), "a wildcard is put behind iff the last part is not the wildcard (an empty value becomes one wildcard)")
+
+    def frame_ok(self, I, inp, obj, name):
+        return False
